@@ -96,8 +96,8 @@ def c14(tier):
         p = {"fault_config": FAULT_CONFIGS[i % 4], "budget": 3.0 if quick else 6.0, "max_pto": 2}
         if i % 16 == 5:
             p["big"] = True
-        if i % 160 == 77:
-            p["huge"] = True  # 8 runs of the quick tier: more than 256 points in one observable
+        if i % 80 == 77:
+            p["huge"] = True  # 16 runs of the quick tier: more than 256 points in one observable
         if not quick and i % 4 == 2:
             p["max_ops"] = 18  # longer histories in the thorough tier
         if jit and not quick:
